@@ -7,6 +7,11 @@ use crate::orch::Executor;
 use serde_json::Value;
 use std::time::Instant;
 
+/// Keys never shrunk (their value only has meaning relative to other fields).
+const PROTECTED_KEYS: [&str; 7] = ["seed", "epoch_secs", "max_decisions", "timeout_ms", "heartbeat", "limit", "rx_capacity"];
+/// String keys holding an enumerated value: shrinking characters would leave the vocabulary.
+const ENUM_KEYS: [&str; 16] = ["kind", "op", "mode", "method", "path", "version", "conn", "ending", "cors", "malformed", "host", "route", "pattern", "addr", "src", "target"];
+
 /// All one-step simplifications of `v` (whole-value variants), simplest first.
 fn variants(v: &Value, key: Option<&str>, out: &mut Vec<Value>, depth: usize) {
     match v {
@@ -40,7 +45,7 @@ fn variants(v: &Value, key: Option<&str>, out: &mut Vec<Value>, depth: usize) {
         }
         Value::Object(o) => {
             for (k, val) in o {
-                if k == "seed" || k == "epoch_secs" || k == "max_decisions" {
+                if PROTECTED_KEYS.contains(&k.as_str()) {
                     continue;
                 }
                 let mut sub = Vec::new();
@@ -77,8 +82,10 @@ fn variants(v: &Value, key: Option<&str>, out: &mut Vec<Value>, depth: usize) {
                 }
                 return;
             }
-            if key == Some("kind") || key == Some("op") || key == Some("mode") || key == Some("method") {
-                return;
+            if let Some(k) = key {
+                if ENUM_KEYS.contains(&k) {
+                    return;
+                }
             }
             let chars: Vec<char> = s.chars().collect();
             let n = chars.len();
